@@ -107,10 +107,33 @@ func inInnerReprOfGet() bool {
 	}
 }
 
+// The ring is built with a hash function that can park ONE evaluation: the first one made by
+// AddWithReplicas itself (not through its h.Remove) after the gate was armed — i.e. the call is held
+// inside the hashing of its virtual nodes.  At HEAD that is inside the write-locked insertion: every
+// other call blocks; a tree that hashes outside the lock lets them through.
+type hashGate struct {
+	armed   int32
+	entered chan struct{}
+	release chan struct{}
+}
+
+var curGate atomic.Pointer[hashGate]
+
+func gatedHash(data []byte) uint64 {
+	if g := curGate.Load(); g != nil && atomic.LoadInt32(&g.armed) == 1 {
+		if inRemove, inAdd := callSite(); inAdd && !inRemove && atomic.CompareAndSwapInt32(&g.armed, 1, 0) {
+			close(g.entered)
+			<-g.release
+		}
+	}
+	return hash.Hash(data)
+}
+
 // the goroutine of a ring call that waits for the ring's lock
 func writerBlocked() bool {
 	for _, st := range hx.Stacks() {
-		if strings.Contains(st, "hash.(*ConsistentHash).") && strings.Contains(st, "sync.(*RWMutex).Lock") && hx.Blocked(st) {
+		if strings.Contains(st, "hash.(*ConsistentHash).") && hx.Blocked(st) &&
+			(strings.Contains(st, "sync.(*RWMutex).Lock") || strings.Contains(st, "sync.(*RWMutex).RLock")) {
 			return true
 		}
 	}
@@ -128,17 +151,13 @@ const concWait = 20 * time.Second
 
 func runConc(c Case) (out Out) {
 	out.ID = c.ID
-	var h *hash.ConsistentHash
-	if c.R == 0 {
-		h = hash.NewConsistentHash()
+	// always through NewCustomConsistentHash with the gate-able murmur3 (replicas 0 -> minReplicas)
+	h := hash.NewCustomConsistentHash(c.R, gatedHash)
+	out.R = c.R
+	if out.R < minReplicas {
 		out.R = minReplicas
-	} else {
-		h = hash.NewCustomConsistentHash(c.R, nil)
-		out.R = c.R
-		if out.R < minReplicas {
-			out.R = minReplicas
-		}
 	}
+	curGate.Store(nil)
 	for _, n := range c.Nodes {
 		r := n.V
 		out.Reprs = append(out.Reprs, r)
@@ -261,7 +280,88 @@ func runConc(c Case) (out Out) {
 		gob := []int{}
 		var what string
 		var ok bool
-		if lst, isl := st.([]any); isl {
+		if lst, isl := st.([]any); isl && lst[0].(string) == "h" {
+			// ["h", thread, [threads...]]: the thread's next call (add-type, at a call boundary) is held inside
+			// the hashing of its virtual nodes; meanwhile the next calls of the listed threads are started one
+			// after the other, each until it finished or blocks on the ring's lock; as soon as one blocks the
+			// held call is released.  Reported: "h|what|n|w1,w2,..": n = calls that finished inside the window.
+			ta := num(lst[1])
+			if ta < 0 || ta >= len(threads) || threads[ta].parked != nil || threads[ta].next >= len(threads[ta].ops) ||
+				threads[ta].ops[threads[ta].next][0].(string) == "remove" {
+				out.Err = "bad hashing step"
+				return
+			}
+			gate := &hashGate{armed: 1, entered: make(chan struct{}), release: make(chan struct{})}
+			curGate.Store(gate)
+			a := startStep(ta, false)
+			held := false
+			select {
+			case <-gate.entered:
+				held = true
+			case <-a.done:
+			case <-time.After(concWait):
+				out.Err = "a call neither reached its hashing nor returned"
+				return
+			}
+			atomic.StoreInt32(&gate.armed, 0)
+			released := !held
+			release := func() {
+				if !released {
+					released = true
+					close(gate.release)
+				}
+			}
+			inside := 0
+			whats := []string{}
+			for _, x := range lst[2].([]any) {
+				ti := num(x)
+				if ti < 0 || ti >= len(threads) || ti == ta {
+					release()
+					out.Err = "bad thread in a hashing step"
+					return
+				}
+				stp := startStep(ti, false)
+				deadline := time.Now().Add(concWait)
+				for {
+					fin := false
+					select {
+					case <-stp.done:
+						fin = true
+					default:
+					}
+					if fin {
+						if !released {
+							inside++
+						}
+						break
+					}
+					if !released && writerBlocked() {
+						release()
+					}
+					if time.Now().After(deadline) {
+						release()
+						out.Err = "a call during a held hashing neither finished nor blocked"
+						return
+					}
+					time.Sleep(50 * time.Microsecond)
+				}
+				w, ok1 := stp.what()
+				if !ok1 {
+					release()
+					out.Err = "a call during a held hashing did not return"
+					return
+				}
+				whats = append(whats, w)
+			}
+			release()
+			wa, ok1 := a.what()
+			if !ok1 {
+				out.Err = "a held call did not return"
+				return
+			}
+			curGate.Store(nil)
+			what, ok = fmt.Sprintf("h|%s|%d|%s", wa, inside, strings.Join(whats, ",")), true
+		} else if isl {
 			// ["g", probe, thread]: a lookup of the probe that overlaps the thread's next step
 			p, ti := num(lst[1]), num(lst[2])
 			if p < 0 || p >= len(c.Probes) || ti < 0 || ti >= len(threads) {
